@@ -30,17 +30,36 @@ def findDel (l : List Delivery) (i : Id) : Option Delivery := l.find? (·.id == 
 
 theorem Db.delById_eq (db : Db) (i : Id) : db.delById i = findDel db.dels i := rfl
 
-def DelsMono (l l' : List Delivery) : Prop :=
-  ∀ i d, findDel l i = some d → ∃ d', findDel l' i = some d' ∧ RowMono d d'
+/-- a relation between the old and the new version of a row that every row update used by
+    enqueueing and dead-lettering respects -/
+structure RowRel (R : Delivery → Delivery → Prop) : Prop where
+  refl : ∀ d, R d d
+  trans : ∀ {a b c}, R a b → R b c → R a c
+  id : ∀ {a b}, R a b → b.id = a.id
+  complete : ∀ d t, R d { d with completedAt := some t }
 
-theorem DelsMono.refl (l : List Delivery) : DelsMono l l :=
-  fun _ d h => ⟨d, h, RowMono.refl d⟩
+/-- `R` lifted to tables, row by row by primary key -/
+def DelsRel (R : Delivery → Delivery → Prop) (l l' : List Delivery) : Prop :=
+  ∀ i d, findDel l i = some d → ∃ d', findDel l' i = some d' ∧ R d d'
 
-theorem DelsMono.trans {a b c : List Delivery} (h₁ : DelsMono a b) (h₂ : DelsMono b c) : DelsMono a c := by
+abbrev DelsMono := DelsRel RowMono
+
+theorem rowRel_mono : RowRel RowMono :=
+  ⟨RowMono.refl, RowMono.trans, fun h => h.id,
+   fun _ _ => ⟨rfl, rfl, rfl, rfl, rfl, fun _ => rfl, Nat.le_refl _⟩⟩
+
+section
+variable {R : Delivery → Delivery → Prop}
+
+theorem DelsRel.refl (hR : RowRel R) (l : List Delivery) : DelsRel R l l :=
+  fun _ d h => ⟨d, h, hR.refl d⟩
+
+theorem DelsRel.trans (hR : RowRel R) {a b c : List Delivery} (h₁ : DelsRel R a b) (h₂ : DelsRel R b c) :
+    DelsRel R a c := by
   intro i d hd
   obtain ⟨d', hd', r₁⟩ := h₁ i d hd
   obtain ⟨d'', hd'', r₂⟩ := h₂ i d' hd'
-  exact ⟨d'', hd'', r₁.trans r₂⟩
+  exact ⟨d'', hd'', hR.trans r₁ r₂⟩
 
 theorem findDel_map (l : List Delivery) (g : Delivery → Delivery) (i : Id) (h : ∀ d, (g d).id = d.id) :
     findDel (l.map g) i = (findDel l i).map g := by
@@ -50,26 +69,28 @@ theorem findDel_map (l : List Delivery) (g : Delivery → Delivery) (i : Id) (h 
     funext d; simp [Function.comp, h]
   rw [this]
 
-theorem DelsMono.map (l : List Delivery) (g : Delivery → Delivery) (h : ∀ d, RowMono d (g d)) :
-    DelsMono l (l.map g) := by
+theorem DelsRel.map (hR : RowRel R) (l : List Delivery) (g : Delivery → Delivery) (h : ∀ d, R d (g d)) :
+    DelsRel R l (l.map g) := by
   intro i d hd
   refine ⟨g d, ?_, h d⟩
-  rw [findDel_map l g i (fun d => (h d).id), hd]; rfl
+  rw [findDel_map l g i (fun d => hR.id (h d)), hd]; rfl
 
-theorem DelsMono.updateWhere (l : List Delivery) (p : Delivery → Bool) (f : Delivery → Delivery)
-    (h : ∀ d, p d = true → RowMono d (f d)) : DelsMono l (updateWhere p f l) := by
+theorem DelsRel.updateWhere (hR : RowRel R) (l : List Delivery) (p : Delivery → Bool) (f : Delivery → Delivery)
+    (h : ∀ d, p d = true → R d (f d)) : DelsRel R l (updateWhere p f l) := by
   unfold Mmmbbb.updateWhere
-  apply DelsMono.map
+  apply DelsRel.map hR
   intro d
   by_cases hp : p d = true
   · simp [hp, h d hp]
-  · simp [hp, RowMono.refl]
+  · simp [hp, hR.refl]
 
-theorem DelsMono.append (l rows : List Delivery) : DelsMono l (l ++ rows) := by
+theorem DelsRel.append (hR : RowRel R) (l rows : List Delivery) : DelsRel R l (l ++ rows) := by
   intro i d hd
-  refine ⟨d, ?_, RowMono.refl d⟩
+  refine ⟨d, ?_, hR.refl d⟩
   unfold findDel at *
   rw [List.find?_append, hd]; rfl
+
+end
 
 /-! ### enqueueing and dead-lettering -/
 
@@ -91,20 +112,19 @@ theorem deliverAll_shape {db : Db} {subs : List Sub} {m : Msg} {now : Time} {fwd
         injection h with h1 h2
         exact ⟨rows, hr, h1.symm, h2.symm⟩
 
-theorem deliverAll_mono {db : Db} {subs : List Sub} {m : Msg} {now : Time} {fwds : List Fwd}
+section
+variable {R : Delivery → Delivery → Prop}
+
+theorem deliverAll_mono (hR : RowRel R) {db : Db} {subs : List Sub} {m : Msg} {now : Time} {fwds : List Fwd}
     {db' : Db} {w : List Id} (h : deliverAll db subs m now fwds = .ok (db', w)) :
-    DelsMono db.dels db'.dels := by
+    DelsRel R db.dels db'.dels := by
   obtain ⟨rows, _, rfl, _⟩ := deliverAll_shape h
-  exact DelsMono.append _ _
+  exact DelsRel.append hR _ _
 
-/-- completing a row is monotone -/
-theorem rowMono_complete (d : Delivery) (t : Time) : RowMono d { d with completedAt := some t } :=
-  ⟨rfl, rfl, rfl, rfl, rfl, fun _ => rfl, Nat.le_refl _⟩
-
-theorem markCompleted_mono (i : Id) (now : Time) (l : List Delivery) :
-    DelsMono l (markCompleted i now l) := by
+theorem markCompleted_mono (hR : RowRel R) (i : Id) (now : Time) (l : List Delivery) :
+    DelsRel R l (markCompleted i now l) := by
   unfold markCompleted
-  exact DelsMono.updateWhere _ _ _ (fun x _ => rowMono_complete x now)
+  exact DelsRel.updateWhere hR _ _ _ (fun x _ => hR.complete x now)
 
 theorem dlForward_shape {db : Db} {d : Delivery} {dlt : Id} {now : Time} {fwds : List Fwd}
     {db1 : Db} {w : List Id} (h : dlForward db d dlt now fwds = .ok (db1, w)) :
@@ -137,17 +157,13 @@ theorem deadLetter_shape {db : Db} {d : Delivery} {dlt : Id} {now : Time} {fwds 
       injection h with h1 _
       exact ⟨rows, h1.symm⟩
 
-theorem deadLetter_mono {db : Db} {d : Delivery} {dlt : Id} {now : Time} {fwds : List Fwd}
+theorem deadLetter_mono (hR : RowRel R) {db : Db} {d : Delivery} {dlt : Id} {now : Time} {fwds : List Fwd}
     {db' : Db} {w : List Id} (h : deadLetter db d dlt now fwds = .ok (db', w)) :
-    DelsMono db.dels db'.dels := by
+    DelsRel R db.dels db'.dels := by
   obtain ⟨rows, rfl⟩ := deadLetter_shape h
-  exact (DelsMono.append _ rows).trans (markCompleted_mono _ _ _)
+  exact DelsRel.trans hR (DelsRel.append hR _ rows) (markCompleted_mono hR _ _ _)
 
-theorem deadLetter_other {db : Db} {d : Delivery} {dlt : Id} {now : Time} {fwds : List Fwd}
-    {db' : Db} {w : List Id} (h : deadLetter db d dlt now fwds = .ok (db', w)) :
-    db'.topics = db.topics ∧ db'.subs = db.subs ∧ db'.msgs = db.msgs ∧ db'.snaps = db.snaps := by
-  obtain ⟨rows, rfl⟩ := deadLetter_shape h
-  exact ⟨rfl, rfl, rfl, rfl⟩
+end
 
 /-- the four tables an action on deliveries leaves alone -/
 def SameOther (db db' : Db) : Prop :=
@@ -157,19 +173,27 @@ theorem SameOther.refl (db : Db) : SameOther db db := ⟨rfl, rfl, rfl, rfl⟩
 theorem SameOther.trans {a b c : Db} (h₁ : SameOther a b) (h₂ : SameOther b c) : SameOther a c :=
   ⟨h₂.1.trans h₁.1, h₂.2.1.trans h₁.2.1, h₂.2.2.1.trans h₁.2.2.1, h₂.2.2.2.trans h₁.2.2.2⟩
 
+theorem deadLetter_other {db : Db} {d : Delivery} {dlt : Id} {now : Time} {fwds : List Fwd}
+    {db' : Db} {w : List Id} (h : deadLetter db d dlt now fwds = .ok (db', w)) : SameOther db db' := by
+  obtain ⟨rows, rfl⟩ := deadLetter_shape h
+  exact ⟨rfl, rfl, rfl, rfl⟩
+
+section
+variable {R : Delivery → Delivery → Prop}
+
 /-! ### pull -/
 
-theorem pullLoop_mono (s : Sub) (now : Time) (maxBytes : Nat) (strict : Bool) (obs : PullObs) :
+theorem pullLoop_rel (hR : RowRel R) (s : Sub) (now : Time) (maxBytes : Nat) (strict : Bool) (obs : PullObs) :
     ∀ (cands : List Delivery) (i : Nat) (acc acc' : PullAcc),
       pullLoop s now maxBytes strict obs i cands acc = .ok acc' →
-      DelsMono acc.db.dels acc'.db.dels ∧ SameOther acc.db acc'.db := by
+      DelsRel R acc.db.dels acc'.db.dels ∧ SameOther acc.db acc'.db := by
   intro cands
   induction cands with
   | nil =>
     intro i acc acc' h
     unfold pullLoop at h
     injection h with h; subst h
-    exact ⟨DelsMono.refl _, SameOther.refl _⟩
+    exact ⟨DelsRel.refl hR _, SameOther.refl _⟩
   | cons d r ih =>
     intro i acc acc' h
     unfold pullLoop at h
@@ -182,19 +206,170 @@ theorem pullLoop_mono (s : Sub) (now : Time) (maxBytes : Nat) (strict : Bool) (o
           · cases h
           · rename_i db' w hdl
             have := ih _ _ _ h
-            exact ⟨(deadLetter_mono hdl).trans this.1, SameOther.trans (deadLetter_other hdl) this.2⟩
+            exact ⟨DelsRel.trans hR (deadLetter_mono hR hdl) this.1, SameOther.trans (deadLetter_other hdl) this.2⟩
         · split at h
           · cases h
           · have := ih _ _ _ h
             exact this
 
+/-! ### ack / nack / delay / sweep / publish -/
+
+theorem ack_rel (hR : RowRel R) {db : Db} {now : Time} {ids : List Id} {o : TxOut Nat} (h : ack db now ids = .ok o) :
+    DelsRel R db.dels o.db.dels ∧ SameOther db o.db := by
+  unfold ack at h
+  injection h with h; subst h
+  exact ⟨DelsRel.updateWhere hR _ _ _ (fun x _ => hR.complete x now), SameOther.refl _⟩
+
+/-- `delay` under a relation that tolerates the deadline updates this call makes -/
+theorem delay_rel (hR : RowRel R) {db : Db} {now : Time} {ids : List Id} {Δ : Int} {o : TxOut Nat}
+    (hupd : ∀ d : Delivery, (Δ ≤ 0 ∨ d.attemptAt < now + Δ) → R d { d with attemptAt := now + Δ })
+    (h : delay db now ids Δ = .ok o) : DelsRel R db.dels o.db.dels ∧ SameOther db o.db := by
+  unfold delay at h
+  simp only at h
+  split at h
+  · rename_i hle
+    injection h with h; subst h
+    exact ⟨DelsRel.updateWhere hR _ _ _ (fun x _ => hupd x (Or.inl hle)), SameOther.refl _⟩
+  · injection h with h; subst h
+    refine ⟨DelsRel.updateWhere hR _ _ _ (fun x hp => hupd x (Or.inr ?_)), SameOther.refl _⟩
+    simp only [Bool.and_eq_true, decide_eq_true_eq] at hp
+    exact hp.2
+
+theorem nackLoop_rel (hR : RowRel R) (hatt : ∀ (d : Delivery) (t : Time), R d { d with attemptAt := t })
+    (now : Time) (delays : List (Id × Int)) (fwds : List (Id × List Fwd)) :
+    ∀ (rows : List Delivery) (acc acc' : NackAcc),
+      nackLoop now delays fwds rows acc = .ok acc' →
+      DelsRel R acc.db.dels acc'.db.dels ∧ SameOther acc.db acc'.db := by
+  intro rows
+  induction rows with
+  | nil =>
+    intro acc acc' h
+    unfold nackLoop at h
+    injection h with h; subst h
+    exact ⟨DelsRel.refl hR _, SameOther.refl _⟩
+  | cons d r ih =>
+    intro acc acc' h
+    unfold nackLoop at h
+    split at h
+    · cases h
+    · split at h
+      · split at h
+        · cases h
+        · rename_i db' w hdl
+          have := ih _ _ h
+          exact ⟨DelsRel.trans hR (deadLetter_mono hR hdl) this.1, SameOther.trans (deadLetter_other hdl) this.2⟩
+      · split at h
+        · cases h
+        · have := ih _ _ h
+          refine ⟨DelsRel.trans hR ?_ this.1, SameOther.trans ⟨rfl, rfl, rfl, rfl⟩ this.2⟩
+          unfold setAttemptAt
+          exact DelsRel.updateWhere hR _ _ _ (fun x _ => hatt x _)
+
+theorem nack_rel (hR : RowRel R) (hatt : ∀ (d : Delivery) (t : Time), R d { d with attemptAt := t })
+    {db : Db} {now : Time} {ids : List Id} {delays : List (Id × Int)}
+    {fwds : List (Id × List Fwd)} {o : TxOut (Nat × Nat)} (h : nack db now ids delays fwds = .ok o) :
+    DelsRel R db.dels o.db.dels ∧ SameOther db o.db := by
+  unfold nack at h
+  simp only at h
+  split at h
+  · cases h
+  · rename_i acc hl
+    injection h with h; subst h
+    exact nackLoop_rel hR hatt _ _ _ _ _ _ hl
+
+theorem sweepLoop_rel (hR : RowRel R) (now : Time) (fwds : List (Id × List Fwd)) :
+    ∀ (rows : List Delivery) (db : Db) (wk : List Id) (db' : Db) (wk' : List Id),
+      sweepLoop now fwds rows db wk = .ok (db', wk') → DelsRel R db.dels db'.dels ∧ SameOther db db' := by
+  intro rows
+  induction rows with
+  | nil =>
+    intro db wk db' wk' h
+    unfold sweepLoop at h
+    injection h with h; injection h with h1 _; subst h1
+    exact ⟨DelsRel.refl hR _, SameOther.refl _⟩
+  | cons d r ih =>
+    intro db wk db' wk' h
+    unfold sweepLoop at h
+    split at h
+    · cases h
+    · split at h
+      · cases h
+      · rename_i db1 w hdl
+        have := ih _ _ _ _ h
+        exact ⟨DelsRel.trans hR (deadLetter_mono hR hdl) this.1, SameOther.trans (deadLetter_other hdl) this.2⟩
+
+theorem dlSweep_rel (hR : RowRel R) {db : Db} {now : Time} {max : Nat} {victims : List Id}
+    {fwds : List (Id × List Fwd)} {o : TxOut Nat} (h : dlSweep db now max victims fwds = .ok o) :
+    DelsRel R db.dels o.db.dels ∧ SameOther db o.db := by
+  unfold dlSweep at h
+  split at h
+  · cases h
+  · split at h
+    · cases h
+    · split at h
+      · cases h
+      · rename_i db' wk hl
+        injection h with h; subst h
+        exact sweepLoop_rel hR _ _ _ _ _ _ _ hl
+
+theorem publishOne_rel (hR : RowRel R) {db : Db} {t : Topic} {now : Time} {pm : PubMsg} {db' : Db} {w : List Id}
+    (h : publishOne db t now pm = .ok (db', w)) :
+    DelsRel R db.dels db'.dels ∧ db'.topics = db.topics ∧ db'.subs = db.subs ∧ db'.snaps = db.snaps := by
+  unfold publishOne at h
+  split at h
+  · cases h
+  · simp only at h
+    obtain ⟨rows, _, h1, _⟩ := deliverAll_shape h
+    subst h1
+    exact ⟨DelsRel.append hR _ _, rfl, rfl, rfl⟩
+
+theorem publishLoop_rel (hR : RowRel R) (t : Topic) (tick : Int) :
+    ∀ (msgs : List PubMsg) (db : Db) (now : Time) (wk : List Id) (db' : Db) (wk' : List Id),
+      publishLoop t tick db now wk msgs = .ok (db', wk') →
+      DelsRel R db.dels db'.dels ∧ db'.topics = db.topics ∧ db'.subs = db.subs ∧ db'.snaps = db.snaps := by
+  intro msgs
+  induction msgs with
+  | nil =>
+    intro db now wk db' wk' h
+    unfold publishLoop at h
+    injection h with h; injection h with h1 _; subst h1
+    exact ⟨DelsRel.refl hR _, rfl, rfl, rfl⟩
+  | cons pm r ih =>
+    intro db now wk db' wk' h
+    unfold publishLoop at h
+    split at h
+    · cases h
+    · rename_i db1 w h1
+      have a := publishOne_rel hR h1
+      have b := ih _ _ _ _ _ h
+      exact ⟨DelsRel.trans hR a.1 b.1, b.2.1.trans a.2.1, b.2.2.1.trans a.2.2.1, b.2.2.2.trans a.2.2.2⟩
+
+theorem publish_rel (hR : RowRel R) {db : Db} {now : Time} {topic : String} {tick : Int} {msgs : List PubMsg}
+    {o : TxOut (List Id)} (h : publish db now topic tick msgs = .ok o) :
+    DelsRel R db.dels o.db.dels ∧ o.db.topics = db.topics ∧ o.db.subs = db.subs ∧ o.db.snaps = db.snaps := by
+  unfold publish at h
+  split at h
+  · cases h
+  · split at h
+    · cases h
+    · rename_i db' wk hl
+      injection h with h; subst h
+      exact publishLoop_rel hR _ _ _ _ _ _ _ _ hl
+
+end
+
+/-! ### the `RowMono` instances -/
+
 theorem rowMono_lease (now : Time) (δ : Int) (d : Delivery) : RowMono d (leaseRow now δ d) :=
   ⟨rfl, rfl, rfl, rfl, rfl, fun h => h, Nat.le_succ _⟩
+
+theorem rowMono_attemptAt (d : Delivery) (t : Time) : RowMono d { d with attemptAt := t } :=
+  ⟨rfl, rfl, rfl, rfl, rfl, fun h => h, Nat.le_refl _⟩
 
 theorem applyLeases_mono (now : Time) (dl : List (Delivery × Int)) (l : List Delivery) :
     DelsMono l (applyLeases now dl l) := by
   unfold applyLeases
-  apply DelsMono.map
+  apply DelsRel.map rowRel_mono
   intro d
   unfold applyLease
   split
@@ -216,7 +391,7 @@ theorem pull_mono {db : Db} {now : Time} {sub : String} {max maxBytes : Nat} {st
       · cases h
       · split at h
         · injection h with h; injection h with h1 _; subst h1
-          exact ⟨DelsMono.refl _, rfl, rfl, rfl⟩
+          exact ⟨DelsRel.refl rowRel_mono _, rfl, rfl, rfl⟩
         · split at h
           · cases h
           · rename_i o' hd
@@ -226,150 +401,30 @@ theorem pull_mono {db : Db} {now : Time} {sub : String} {max maxBytes : Nat} {st
             · cases hd
             · rename_i acc hl
               injection hd with hd; subst hd
-              have := pullLoop_mono _ _ _ _ _ _ _ _ _ hl
-              refine ⟨this.1.trans (applyLeases_mono _ _ _), ?_, ?_, ?_⟩
+              have := pullLoop_rel rowRel_mono _ _ _ _ _ _ _ _ _ hl
+              refine ⟨DelsRel.trans rowRel_mono this.1 (applyLeases_mono _ _ _), ?_, ?_, ?_⟩
               · exact this.2.1
               · exact this.2.2.2.1
               · exact this.2.2.2.2
 
-/-! ### ack / nack / delay / sweep / publish -/
-
 theorem ack_mono {db : Db} {now : Time} {ids : List Id} {o : TxOut Nat} (h : ack db now ids = .ok o) :
-    DelsMono db.dels o.db.dels ∧ SameOther db o.db := by
-  unfold ack at h
-  injection h with h; subst h
-  exact ⟨DelsMono.updateWhere _ _ _ (fun x _ => rowMono_complete x now), SameOther.refl _⟩
-
-theorem rowMono_attemptAt (d : Delivery) (t : Time) : RowMono d { d with attemptAt := t } :=
-  ⟨rfl, rfl, rfl, rfl, rfl, fun h => h, Nat.le_refl _⟩
+    DelsMono db.dels o.db.dels ∧ SameOther db o.db := ack_rel rowRel_mono h
 
 theorem delay_mono {db : Db} {now : Time} {ids : List Id} {Δ : Int} {o : TxOut Nat}
-    (h : delay db now ids Δ = .ok o) : DelsMono db.dels o.db.dels ∧ SameOther db o.db := by
-  unfold delay at h
-  simp only at h
-  split at h
-  · injection h with h; subst h
-    exact ⟨DelsMono.updateWhere _ _ _ (fun x _ => rowMono_attemptAt x _), SameOther.refl _⟩
-  · injection h with h; subst h
-    exact ⟨DelsMono.updateWhere _ _ _ (fun x _ => rowMono_attemptAt x _), SameOther.refl _⟩
-
-theorem nackLoop_mono (now : Time) (delays : List (Id × Int)) (fwds : List (Id × List Fwd)) :
-    ∀ (rows : List Delivery) (acc acc' : NackAcc),
-      nackLoop now delays fwds rows acc = .ok acc' →
-      DelsMono acc.db.dels acc'.db.dels ∧ SameOther acc.db acc'.db := by
-  intro rows
-  induction rows with
-  | nil =>
-    intro acc acc' h
-    unfold nackLoop at h
-    injection h with h; subst h
-    exact ⟨DelsMono.refl _, SameOther.refl _⟩
-  | cons d r ih =>
-    intro acc acc' h
-    unfold nackLoop at h
-    split at h
-    · cases h
-    · split at h
-      · split at h
-        · cases h
-        · rename_i db' w hdl
-          have := ih _ _ h
-          exact ⟨(deadLetter_mono hdl).trans this.1, SameOther.trans (deadLetter_other hdl) this.2⟩
-      · split at h
-        · cases h
-        · have := ih _ _ h
-          refine ⟨DelsMono.trans ?_ this.1, SameOther.trans ⟨rfl, rfl, rfl, rfl⟩ this.2⟩
-          unfold setAttemptAt
-          exact DelsMono.updateWhere _ _ _ (fun x _ => rowMono_attemptAt x _)
+    (h : delay db now ids Δ = .ok o) : DelsMono db.dels o.db.dels ∧ SameOther db o.db :=
+  delay_rel rowRel_mono (fun d _ => rowMono_attemptAt d _) h
 
 theorem nack_mono {db : Db} {now : Time} {ids : List Id} {delays : List (Id × Int)}
     {fwds : List (Id × List Fwd)} {o : TxOut (Nat × Nat)} (h : nack db now ids delays fwds = .ok o) :
-    DelsMono db.dels o.db.dels ∧ SameOther db o.db := by
-  unfold nack at h
-  simp only at h
-  split at h
-  · cases h
-  · rename_i acc hl
-    injection h with h; subst h
-    exact nackLoop_mono _ _ _ _ _ _ hl
-
-theorem sweepLoop_mono (now : Time) (fwds : List (Id × List Fwd)) :
-    ∀ (rows : List Delivery) (db : Db) (wk : List Id) (db' : Db) (wk' : List Id),
-      sweepLoop now fwds rows db wk = .ok (db', wk') → DelsMono db.dels db'.dels ∧ SameOther db db' := by
-  intro rows
-  induction rows with
-  | nil =>
-    intro db wk db' wk' h
-    unfold sweepLoop at h
-    injection h with h; injection h with h1 _; subst h1
-    exact ⟨DelsMono.refl _, SameOther.refl _⟩
-  | cons d r ih =>
-    intro db wk db' wk' h
-    unfold sweepLoop at h
-    split at h
-    · cases h
-    · split at h
-      · cases h
-      · rename_i db1 w hdl
-        have := ih _ _ _ _ h
-        exact ⟨(deadLetter_mono hdl).trans this.1, SameOther.trans (deadLetter_other hdl) this.2⟩
+    DelsMono db.dels o.db.dels ∧ SameOther db o.db := nack_rel rowRel_mono rowMono_attemptAt h
 
 theorem dlSweep_mono {db : Db} {now : Time} {max : Nat} {victims : List Id} {fwds : List (Id × List Fwd)}
     {o : TxOut Nat} (h : dlSweep db now max victims fwds = .ok o) :
-    DelsMono db.dels o.db.dels ∧ SameOther db o.db := by
-  unfold dlSweep at h
-  split at h
-  · cases h
-  · split at h
-    · cases h
-    · split at h
-      · cases h
-      · rename_i db' wk hl
-        injection h with h; subst h
-        exact sweepLoop_mono _ _ _ _ _ _ _ hl
-
-theorem publishOne_mono {db : Db} {t : Topic} {now : Time} {pm : PubMsg} {db' : Db} {w : List Id}
-    (h : publishOne db t now pm = .ok (db', w)) :
-    DelsMono db.dels db'.dels ∧ db'.topics = db.topics ∧ db'.subs = db.subs ∧ db'.snaps = db.snaps := by
-  unfold publishOne at h
-  split at h
-  · cases h
-  · simp only at h
-    obtain ⟨rows, _, h1, _⟩ := deliverAll_shape h
-    subst h1
-    exact ⟨DelsMono.append _ _, rfl, rfl, rfl⟩
-
-theorem publishLoop_mono (t : Topic) (tick : Int) :
-    ∀ (msgs : List PubMsg) (db : Db) (now : Time) (wk : List Id) (db' : Db) (wk' : List Id),
-      publishLoop t tick db now wk msgs = .ok (db', wk') →
-      DelsMono db.dels db'.dels ∧ db'.topics = db.topics ∧ db'.subs = db.subs ∧ db'.snaps = db.snaps := by
-  intro msgs
-  induction msgs with
-  | nil =>
-    intro db now wk db' wk' h
-    unfold publishLoop at h
-    injection h with h; injection h with h1 _; subst h1
-    exact ⟨DelsMono.refl _, rfl, rfl, rfl⟩
-  | cons pm r ih =>
-    intro db now wk db' wk' h
-    unfold publishLoop at h
-    split at h
-    · cases h
-    · rename_i db1 w h1
-      have a := publishOne_mono h1
-      have b := ih _ _ _ _ _ h
-      exact ⟨a.1.trans b.1, b.2.1.trans a.2.1, b.2.2.1.trans a.2.2.1, b.2.2.2.trans a.2.2.2⟩
+    DelsMono db.dels o.db.dels ∧ SameOther db o.db := dlSweep_rel rowRel_mono h
 
 theorem publish_mono {db : Db} {now : Time} {topic : String} {tick : Int} {msgs : List PubMsg}
     {o : TxOut (List Id)} (h : publish db now topic tick msgs = .ok o) :
-    DelsMono db.dels o.db.dels ∧ o.db.topics = db.topics ∧ o.db.subs = db.subs ∧ o.db.snaps = db.snaps := by
-  unfold publish at h
-  split at h
-  · cases h
-  · split at h
-    · cases h
-    · rename_i db' wk hl
-      injection h with h; subst h
-      exact publishLoop_mono _ _ _ _ _ _ _ _ hl
+    DelsMono db.dels o.db.dels ∧ o.db.topics = db.topics ∧ o.db.subs = db.subs ∧ o.db.snaps = db.snaps :=
+  publish_rel rowRel_mono h
 
 end Mmmbbb
